@@ -106,15 +106,27 @@ def iter_atomic_values(xsd_type: XsdTypeProtocol) -> Iterator[aliases.AtomicType
             for member_type in root_type.member_types:
                 yield from _iter_values(member_type, depth + 1)
 
+    def _nearest_builtin(derived_type: XsdTypeProtocol) -> XsdTypeProtocol:
+        # The nearest ancestor (base type, item type for a list) that has a prototype
+        # value: xs:int for a restriction of xs:int, not its primitive type xs:decimal.
+        ancestor: Optional[XsdTypeProtocol] = derived_type
+        for _ in range(16):
+            if ancestor is None:
+                break
+            elif ancestor.name in atomic_values:
+                return ancestor
+            ancestor = getattr(ancestor, 'item_type', None) or getattr(ancestor, 'base_type', None)
+        return derived_type.root_type
+
     atomic_values = _ATOMIC_VALUES[xsd_type.xsd_version]
     if xsd_type.name in atomic_values:
         yield atomic_values[xsd_type.name]
     elif xsd_type.is_simple() or (simple_type := xsd_type.simple_type) is None:
-        yield from _iter_values(xsd_type.root_type, 1)
+        yield from _iter_values(_nearest_builtin(xsd_type), 1)
     elif simple_type.name in atomic_values:
         yield atomic_values[simple_type.name]
     else:
-        yield from _iter_values(simple_type.root_type, 1)
+        yield from _iter_values(_nearest_builtin(simple_type), 1)
 
 
 def get_atomic_sequence(xsd_type: Optional[XsdTypeProtocol],
